@@ -421,6 +421,8 @@ def run_property(prop, tier='quick', seed=0, only_unit=None, verbose=False):
           known_lines.append(line)
       else:
         path = os.path.join(replay_dir, _safe(b.name + '-' + str(fid)) + '.json')
+        if any(v[1] == path for v in violations):
+          continue            # one replay file (the first failing input) per failure kind
         with open(path, 'w') as f:
           json.dump({'property': prop.pid, 'obligation': b.name, 'kind': 'bounded', 'failure': fail,
                      'native_confirms': True}, f, indent=1, default=str)
